@@ -35,6 +35,8 @@ def _verify_one(idx):
     except Exception:
         return [dict(name=C.name + "#crash", contract=C.name, fn=C.fn, status="error", detail=traceback.format_exc()[-2000:], seconds=time.time() - t0)]
     need_enum = _G["tier"] == "thorough" or any(ob["status"] in ("undecided", "out-of-reach", "vacuous") for ob in obs)
+    if any(ob["name"].endswith("#attach") for ob in obs):
+        need_enum = False
     for ob in obs:
         if ob["status"] == "refuted":
             tag = "%s/%s" % (pid, _safe(ob["name"]))
